@@ -29,6 +29,40 @@ CHECKS = {
         "Expression forms limited to +, *, sqrt; 3 value vectors; label alphabet fixed.",
         "DESIGN.md section 4 / C12",
     ),
+    "C02": (
+        "exploration",
+        "E1",
+        "complete t-way enumeration (t=3 quick, t=4 + full product thorough) of a 15-axis scheme-feature space; "
+        "entry-for-entry comparison of the real objective with an independent numpy reference evaluation",
+        "Every combination of up to t non-default features (linking, axes overlap, index dependence, weights, "
+        "scales, several megacomplexes, constraints, relations, penalties, NNLS, full model, layout, groups, label "
+        "sets) is built as a real Scheme and its penalty vector compared entry for entry with a reference that "
+        "shares no pipeline code; group independence is checked bit-exactly.",
+        "Harness megacomplexes with closed-form columns; tiny axes; interval bounds on axis points (C08 decides edges).",
+        "DESIGN.md section 4 / C02",
+    ),
+    "C03": (
+        "exploration",
+        "E1",
+        "complete t-way enumeration of the scheme-feature space x label sets (substrings, coinciding concatenations); "
+        "identities on optimize().data plus agreement with the independent reference",
+        "Every enumerated scheme is optimised (1 evaluation, noisy data) and every result dataset is checked: "
+        "data=fitted+residual, fitted=scale*matrix*clp(*global_matrix^T), weighted_residual=weight*residual, own "
+        "coordinates and labels, exact zeros / relations, residual/clp/matrix/weight equal to the reference.",
+        "Same generator limits as C02.",
+        "DESIGN.md section 4 / C03",
+    ),
+    "C09": (
+        "exploration",
+        "E1",
+        "exhaustive enumeration of all ordered axis tuples over a point grid x tolerances x methods x weight placement; "
+        "reference alignment (all tie resolutions) vs every table of DataProviderLinked; end-to-end optimize vs reference",
+        "All 2-dataset (thorough: also 3-dataset) axis configurations up to 3 points on a grid with offsets are "
+        "aligned by the real provider and compared table by table with the statement read literally; end-to-end "
+        "results are compared with the independent reference, including 'clps shared iff same aligned point'.",
+        "Grid of 5 (quick) / 7 (thorough) candidate points, axes of <= 3 points, 6 tolerances.",
+        "DESIGN.md section 4 / C09",
+    ),
 }
 
 PENDING_REASON = "check under construction in this round - not claimed until its check runs clean on the unchanged tree"
@@ -69,7 +103,7 @@ def main():
             "add_only": True,
         },
         "engines": [
-            {"name": "E1", "path": "vf/core.py", "serves_properties": [], "kind_free_text": "bounded exhaustive input-space enumeration with reference oracles, 16 workers"},
+            {"name": "E1", "path": "vf/core.py", "serves_properties": ["C02", "C03", "C09"], "kind_free_text": "bounded exhaustive input-space enumeration with reference oracles, 16 workers"},
             {"name": "E2", "path": "vf/explore.py", "serves_properties": ["C12", "C19"], "kind_free_text": "explicit-state BFS over event histories replayed on fresh real objects, full-state digests"},
             {"name": "E4", "path": "vf/tlc.py", "serves_properties": ["C19"], "kind_free_text": "TLA+ model explored by TLC; every edge of the dumped state graph replayed against the implementation"},
         ],
